@@ -61,6 +61,12 @@ CLAIMED.update({
     design_ref="§4 C20", note=PANIC_NOTE,
     technique="static analysis: abstract interpretation over type-checked MIR + call-graph reachability (CHA) + typestate rule on parser state stores"),
 })
+CLAIMED.update({
+ "C03": dict(category="other",
+    text="Magnitude-taint rule over every body reachable from the text parsers, the loaders and the RIP/IGS entry points: at each Range loop, eager allocation (resize / with_capacity / vec![x; n] / repeat) and dimension setter or constructor the abstract interpreter must prove the driving value <= 2^16 or <= a container length / size.width / size.height + c; a value that is a clean function of the parameters is lifted to the callers and re-checked there. A flow-sensitive taint (sources: the parsers' parsed_numbers, the DCS repeat count, 32/64-bit integers decoded from file bytes, str::parse) marks values that have not passed a bounding guard; an unbounded sink fed by a tainted value is a violation, unbounded sinks of unknown provenance are reported as undecided and never alarmed on. Plus: every call-graph cycle reachable from an entry point needs a reviewed depth argument, and consume-until-empty loops must advance by >= 1. The unclamped repeat loops the property itself names (REP, SU, SD, ICH, DCH, IL, CHT, CBT, SL, SR, DECRQCRA, hex-macro repeat, sixel repeat/raster/colour, IcyDraw and clipboard sizes, PSF2 glyph count, macro recursion, zero-height font data) are listed as known findings. Not decided: the polynomial bound itself, `while` loops whose exit test compares against a tainted value, sleeps.",
+    design_ref="§4 C03", note=PANIC_NOTE + " The cursor coordinates are assumed non-negative and TerminalState.size >= 1 (C09).",
+    technique="static analysis: abstract interpretation with a flow-sensitive taint component over MIR + interprocedural lifting of boundedness obligations + call-graph SCC rule"),
+})
 NOT_APPLICABLE = {p: PENDING for p in ["C%02d" % i for i in range(1, 21)]}
 NOT_APPLICABLE.update({
  "C05": "value-level: equality of pictures after save->load depends on run-time cell values along data-dependent paths of two separate programs (writer, reader); no structural clause is a genuine necessary condition that is not also a frozen-layout match (DESIGN §5)",
